@@ -184,6 +184,25 @@ def run_case(ck, desc):
         ck.violation("dual-class-vs-finite-difference", {"fd": fd, "ad": ad, "which": "Bw"}, desc)
     nonzero += ad != 0
 
+    # (a') temperature AND pressure as arrays (a temperature profile against a pressure profile, a T column against a
+    #      p row): the derivative broadcasts like its parent and every cell is the derivative at that cell's (T, p)
+    if int(Tw * 10) % 4 == 0:
+        Ts_ = np.array([Tw, Tw + 17.0, max(60.0, Tw - 23.0), Tw + 41.0])
+        ps_ = np.array([pw, 0.5 * pw + 100.0, pw + 950.0, 3000.0])
+        for label_, Ta_, pa_ in (("equal-length profiles", Ts_, ps_), ("T column x p row", Ts_[:3].reshape(-1, 1), ps_.reshape(1, -1))):
+            try:
+                par_ = np.asarray(water.b_water_McCain(Ta_, pa_), dtype=float)
+                der_ = np.asarray(water.b_water_McCain_dp(Ta_, pa_), dtype=float)
+            except Exception as e:  # noqa: BLE001
+                ck.count(f"array_temperature_form_not_accepted.{type(e).__name__}")
+                continue
+            Tb_, pb_ = np.broadcast_arrays(Ta_, pa_)
+            want_ = np.array([float(water.b_water_McCain_dp(float(a_), float(b_))) for a_, b_ in zip(Tb_.ravel(), pb_.ravel())]).reshape(Tb_.shape)
+            ck.count("derivative_calls_with_array_temperature_and_pressure")
+            if der_.shape != par_.shape or der_.shape != want_.shape:
+                ck.violation("d(Bw)/dp", {"form": label_, "parent_shape": list(par_.shape), "derivative_shape": list(der_.shape)}, desc)
+            elif not ck.margin("d(Bw)/dp with array temperature and pressure = cell by cell", float(np.max(np.abs(der_ - want_) / np.abs(want_))), 1e-12):
+                ck.violation("d(Bw)/dp", {"form": label_, "max_rel": float(np.max(np.abs(der_ - want_) / np.abs(want_)))}, desc)
     # (b) solution GOR pressure derivative, incl. exactly zero at and above p_b
     val, ad = derivative(lambda x: oil.solution_gor_Standing(T, x, api, gg, gor), p)
     hand = float(oil.dgor_dpressure_Standing(T, p, api, gg, gor))
